@@ -569,9 +569,110 @@ pub broadcast proof fn lemma_nz_set_iter_complete(s: Seq<&Tid>, set: Set<Tid>)
 /// an empty set of contained blocks needs no additional blocks (makes the exit clause hold on loop entry)
 pub proof fn lemma_nz_additional_empty(contained: Set<Tid>, f: Tid, home: Map<Tid, Tid>, bm: Map<Tid, &Term<Blk>>)
     ensures
-        forall |it: Seq<&Tid>| #[trigger] nz_set_iter_of(it, contained) && it.len() == 0 ==> nz_additional_ok(Seq::<Term<Blk>>::empty(), contained, f, home, bm),
+        contained.len() == 0 ==> nz_additional_ok(Seq::<Term<Blk>>::empty(), contained, f, home, bm),
 {
-    assert forall |it: Seq<&Tid>| #[trigger] nz_set_iter_of(it, contained) && it.len() == 0 implies nz_additional_ok(Seq::<Term<Blk>>::empty(), contained, f, home, bm) by {
+    if contained.len() == 0 {
+        assert forall |t: Tid| !contained.contains(t) by {
+            if contained.contains(t) {
+                assert(contained.remove(t).len() < contained.len());
+            }
+        }
         assert(nz_additional(Seq::<Term<Blk>>::empty(), Seq::<Tid>::empty(), contained, f, home, bm));
+    }
+}
+
+/// every contained tid is the tid of a block (when every tid a block names is one)
+pub proof fn lemma_nz_contained_blocks(subs: Map<Tid, Term<Sub>>, bm: Map<Tid, &Term<Blk>>, k: Tid, set: Set<Tid>)
+    requires
+        subs.contains_key(k),
+        nz_blkmap_ok(bm, subs),
+        nz_names_closed(subs),
+        nz_contained_ok(set, subs[k], bm),
+    ensures
+        forall |t: Tid| #[trigger] set.contains(t) ==> nz_is_blk(subs, t) && bm.contains_key(t),
+{
+    assert forall |t: Tid| #[trigger] set.contains(t) implies nz_is_blk(subs, t) && bm.contains_key(t) by {
+        let path = choose |path: Seq<Tid>| #[trigger] nz_path(subs[k], bm, path) && path.last() == t;
+        lemma_nz_path_blocks(subs, bm, k, path, path.len() - 1);
+    }
+}
+
+/// ... by induction along the path
+pub proof fn lemma_nz_path_blocks(subs: Map<Tid, Term<Sub>>, bm: Map<Tid, &Term<Blk>>, k: Tid, path: Seq<Tid>, n: int)
+    requires
+        subs.contains_key(k),
+        nz_blkmap_ok(bm, subs),
+        nz_names_closed(subs),
+        nz_path(subs[k], bm, path),
+        0 <= n < path.len(),
+    ensures
+        nz_is_blk(subs, path[n]) && bm.contains_key(path[n]),
+    decreases n
+{
+    if n == 0 {
+        let i = choose |i: int| 0 <= i < subs[k].term.blocks@.len() && (#[trigger] subs[k].term.blocks@[i]).tid == path[0];
+        assert(nz_blk_at(subs, k, i, subs[k].term.blocks@[i].tid));
+    } else {
+        lemma_nz_path_blocks(subs, bm, k, path, n - 1);
+        let t = path[n - 1];
+        assert(bm.contains_key(t) && nz_names(*bm[t], path[n]));
+        let (k2, i2) = choose |k2: Tid, i2: int| #[trigger] nz_blk_at(subs, k2, i2, t) && *bm[t] == subs[k2].term.blocks@[i2];
+        assert(nz_blk_at(subs, k2, i2, subs[k2].term.blocks@[i2].tid));
+        assert(nz_names(subs[k2].term.blocks@[i2], path[n]));
+        assert(nz_is_blk(subs, path[n]));
+        let (k3, i3) = choose |k3: Tid, i3: int| #[trigger] nz_blk_at(subs, k3, i3, path[n]);
+        assert(nz_blk_at(subs, k3, i3, subs[k3].term.blocks@[i3].tid));
+    }
+}
+
+/// unique tids: functions under different keys have different tids
+pub proof fn lemma_nz_unique_subs_distinct(prog: Tid, subs: Map<Tid, Term<Sub>>)
+    requires
+        nz_unique(prog, subs),
+    ensures
+        nz_sub_tids_distinct(subs),
+{
+    assert forall |k1: Tid, k2: Tid| #[trigger] subs.contains_key(k1) && #[trigger] subs.contains_key(k2) && subs[k1].tid == subs[k2].tid implies k1 == k2 by {
+        assert(nz_pos_ok(subs, NzPos::Sub(k1)) && nz_pos_ok(subs, NzPos::Sub(k2)));
+        assert(nz_tid_at(prog, subs, NzPos::Sub(k1)) == nz_tid_at(prog, subs, NzPos::Sub(k2)));
+    }
+}
+
+/// the two `unwrap()`s of duplicate_blocks_contained_in_several_subs succeed
+pub proof fn lemma_nz_dup_pre(subs: Map<Tid, Term<Sub>>, sm: Map<Tid, HashSet<Tid>>, home: Map<Tid, Tid>, bm: Map<Tid, &Term<Blk>>)
+    requires
+        nz_blkmap_ok(bm, subs),
+        nz_names_closed(subs),
+        nz_submap_ok(sm, subs, bm),
+    ensures
+        nz_dup_pre(subs, sm, home, bm),
+{
+    assert forall |k: Tid| #[trigger] subs.contains_key(k) implies sm.contains_key(subs[k].tid)
+        && forall |t: Tid| #[trigger] sm[subs[k].tid]@.contains(t) && !nz_home_is(home, t, subs[k].tid) ==> bm.contains_key(t) by {
+        lemma_nz_contained_blocks(subs, bm, k, sm[subs[k].tid]@);
+    }
+}
+
+/// make_block_to_sub_mapping_unique: appending the additional blocks, then redirecting the named tids, gives the shape
+pub proof fn lemma_nz_uniq_compose(ks: Seq<Tid>, subs0: Map<Tid, Term<Sub>>, mid: Map<Tid, Term<Sub>>, subs1: Map<Tid, Term<Sub>>,
+                                   add0: Map<Tid, Vec<Term<Blk>>>, home: Map<Tid, Tid>, bm: Map<Tid, &Term<Blk>>, sm: Map<Tid, HashSet<Tid>>)
+    requires
+        nz_keys_of(ks, subs0),
+        mid.dom() =~= subs0.dom(),
+        forall |j: int| 0 <= j < ks.len() ==> nz_appended(subs0[#[trigger] ks[j]], mid[ks[j]], add0[subs0[ks[j]].tid]@),
+        nz_addmap_ok(add0, subs0, sm, home, bm),
+        nz_resfx_post(mid, subs1, home),
+    ensures
+        nz_uniq_shape(subs0, subs1, home, bm, sm),
+{
+    assert forall |k: Tid| #[trigger] subs0.contains_key(k) implies nz_uniq_sub(subs0[k], subs1[k], sm[subs0[k].tid]@, home, bm) by {
+        let j = choose |j: int| 0 <= j < ks.len() && #[trigger] ks[j] == k;
+        let add = add0[subs0[k].tid]@;
+        assert(nz_appended(subs0[ks[j]], mid[ks[j]], add));
+        assert(mid.contains_key(k));
+        assert(nz_resfx_sub(mid[k], subs1[k], home));
+        assert(nz_additional_ok(add, sm[subs0[k].tid]@, subs0[k].tid, home, bm));
+        assert(mid[k].term.blocks@ == subs0[k].term.blocks@ + add);
+        assert(nz_resfx_blks(subs0[k].term.blocks@ + add, subs1[k].term.blocks@, subs0[k].tid, home));
     }
 }
